@@ -20,3 +20,26 @@ CHECKS["C09"] = dict(
     ],
     trusted=["model of core.compare covers nil/bool/int/float64/string (the dynamic types bytemap hands to FlatRow.Get in the generated data)"],
 )
+
+CHECKS["C05"] = dict(
+    stages=[
+        dict(sub="c05expr", quick=500, thorough=24000, shrink=["a", "b", "c"]),
+        dict(sub="c05seq", quick=1500, thorough=64000, shrink=[["s1", "cells"], ["s2", "cells"]]),
+    ],
+    rule=("c05expr: random valid expression trees (depth<=3 over SUM/MIN/MAX/COUNT/AVG/WAVG/BOUNDED/IF/SHIFT, + - * /, "
+          "comparisons, AND/OR, constants) x three batches of 0-4 points (missing fields, IF oracle columns); the real "
+          "expr.Update/Merge/Get run on byte buffers; decoded states are compared with the model (st, merge, get, ref) and "
+          "the property is evaluated on the implementation's own outputs (merge of partial states = state of all points, "
+          "commutative, associative, operands' bytes unchanged). c05seq: real Sequence.Truncate/UpdateValue/Merge/SubMerge on "
+          "generated sequences (resolutions 1s/2s/7s/1.5s/1m, zero and unaligned bounds, empty operands, scaled/strided/"
+          "shifted sub-merges) compared with Model/Seq.v. non-trivial: expr size>=2 and >=2 points / non-empty first operand; "
+          "distinct = distinct case JSON"),
+    what_fails="merging / truncating / accumulating in the implementation differs from the proved model (or violates the monoid laws on its own outputs)",
+    assumptions=[
+        "values are integers of small magnitude so float64 arithmetic is exact; DIV never feeds a comparison (float vs rational equality)",
+        "PERCENTILE (hdrhistogram state) and the read-out of LN/LOG2/LOG10 are not modelled",
+        "zeroTime.Add(-shift) (asOf = zero with a shifted field) saturates/overflows time.Duration in the real code; outside the model, not generated",
+        "the output accumulator of SubMerge lies on the grid anchored at until (as every accumulator produced by SubMerge does)",
+    ],
+    trusted=["Tie/Tie.v ties expr/aggregates.go, expr/calcs.go, expr/conds.go kernels (regenerated into Gen/Facts.v) to the model"],
+)
